@@ -76,6 +76,7 @@ pub fn writer_history(ctx: &Ctx, o: &Map<String, J>) -> R {
     let codec = codec_from(o.get("codec"))?;
     let full_state = o.get("full_state").and_then(|x| x.as_bool()).unwrap_or(true);
     let sink = SharedSink::new(plan_from(o.get("sink_plan")));
+    sink.0.borrow_mut().capture_sites = o.get("sink_plan").and_then(|p| p.get("capture")).is_some();
     let mut marker: Option<[u8; 16]> = None;
     if let Some(m) = o.get("marker").and_then(|x| x.as_str()) {
         let b = unhex(m)?;
@@ -126,6 +127,7 @@ pub fn writer_history(ctx: &Ctx, o: &Map<String, J>) -> R {
         }
     };
     let init_state = wstate(&w, full_state);
+    let sink0 = sink.len();
     let mut w = Some(w);
     let mut steps_out = Vec::new();
     let steps = o.get("steps").and_then(|x| x.as_array()).ok_or("steps")?;
@@ -189,14 +191,16 @@ pub fn writer_history(ctx: &Ctx, o: &Map<String, J>) -> R {
             Some(wr) => wstate(wr, full_state),
             None => J::Null,
         };
-        steps_out.push(json!({"r": r, "sink": sink.len(), "st": state,
+        let counted = !matches!(op, "add_meta" | "reset" | "into_inner" | "drop");
+        steps_out.push(json!({"r": r, "sink": sink.len(), "st": state, "counted": counted,
             "wcalls": calls_after.0 - calls_before.0, "fcalls": calls_after.1 - calls_before.1}));
     }
     // writer still alive at the end: drop it (Drop flushes)
     let alive = w.is_some();
     drop(w);
+    let site = sink.loss_site();
     let s = sink.0.borrow();
-    Ok(json!({"init": init_state, "steps": steps_out, "bytes": hex(&s.data), "alive_at_end": alive,
+    Ok(json!({"init": init_state, "steps": steps_out, "bytes": hex(&s.data), "alive_at_end": alive, "loss_site": site, "sink0": sink0,
         "n_write": s.n_write, "n_flush": s.n_flush, "cleared": s.cleared}))
 }
 
@@ -281,10 +285,13 @@ pub fn so_history(ctx: &Ctx, o: &Map<String, J>) -> R {
     #[cfg(not(feature = "hooks"))]
     let header = String::new();
     let mut out = Vec::new();
+    let (mut nw, mut nf) = (0usize, 0usize);
+    let mut loss_site = "?".to_string();
     for st in o.get("steps").and_then(|x| x.as_array()).ok_or("steps")? {
         let so = st.as_object().ok_or("step")?;
         let v = from_tagged(so.get("v").ok_or("v")?)?;
-        let mut sink = SharedSink::new(plan_from(so.get("sink_plan")));
+        let mut sink = SharedSink::new(plan_from(so.get("sink_plan").or(o.get("sink_plan"))));
+        sink.0.borrow_mut().capture_sites = o.get("sink_plan").and_then(|p| p.get("capture")).is_some();
         let r = if so.get("o").and_then(|x| x.as_str()) == Some("write_value") {
             w.write_value(v, &mut sink)
         } else {
@@ -294,7 +301,13 @@ pub fn so_history(ctx: &Ctx, o: &Map<String, J>) -> R {
         let buf = hex(w.verif_buffer());
         #[cfg(not(feature = "hooks"))]
         let buf = String::new();
+        let (a, b) = sink.n_calls();
+        nw += a;
+        nf += b;
+        if loss_site == "?" {
+            loss_site = sink.loss_site();
+        }
         out.push(json!({"r": res_json(r), "bytes": hex(&sink.bytes()), "buf": buf}));
     }
-    Ok(json!({"header": header, "steps": out}))
+    Ok(json!({"header": header, "steps": out, "n_write": nw, "n_flush": nf, "loss_site": loss_site}))
 }
